@@ -13,7 +13,8 @@ import (
 
 type C08Case struct {
 	Doc     Doc  `json:"doc"`
-	UseFile bool `json:"use_file"` // read the -o file instead of stdout
+	UseFile bool `json:"use_file"`        // read the -o file instead of stdout
+	Stale   bool `json:"stale,omitempty"` // the -o path already exists and is longer than the new result
 }
 
 func strictSMF(b []byte, wantTracks int) (sig, msg string) {
@@ -57,6 +58,10 @@ func checkC08(c C08Case) *Violation {
 	if c.UseFile {
 		run.Argv = append(run.Argv, "-o", "@out.mid")
 		run.OutArg = "out.mid"
+		if c.Stale {
+			// the path already holds a longer file written earlier
+			run.Files = map[string]string{"out.mid": staleContent}
+		}
 	}
 	res := run.Exec()
 	if res.TimedOut || res.Crashed() {
@@ -112,6 +117,7 @@ func TestC08(t *testing.T) {
 			d.Insts[j].Values = []Frac{{1, 1921}}
 		}
 		c := C08Case{Doc: d, UseFile: coin(t, "use-file", 30)}
+		c.Stale = c.UseFile && rapid.Bool().Draw(t, "stale-output-file")
 		nt := d.Flags.Track >= 2 || d.Flags.Instrument != nil || d.Flags.Program != nil
 		var classes []string
 		for _, in := range d.Insts {
@@ -132,10 +138,13 @@ func TestC08(t *testing.T) {
 		if c.UseFile {
 			classes = append(classes, "read-from-o-file")
 		}
+		if c.Stale {
+			classes = append(classes, "o-file-overwrites-longer-file")
+		}
 		if d.Flags.Program != nil && *d.Flags.Program > 127 {
 			classes = append(classes, "program>127")
 		}
-		r.Case(d.YAML()+fmt.Sprint(d.Flags.Argv(), c.UseFile), nt, dedup(classes)...)
+		r.Case(d.YAML()+fmt.Sprint(d.Flags.Argv(), c.UseFile, c.Stale), nt, dedup(classes)...)
 		r.Sample(map[string]any{"args": d.Flags.Argv(), "yaml": d.YAML(), "use_file": c.UseFile})
 		r.Check(t, checkC08(c), "c08", c)
 	})
